@@ -3,6 +3,7 @@
 
 pub mod classfile;
 pub mod engine;
+pub mod jar;
 pub mod mapmodel;
 pub mod props;
 pub mod sandbox;
